@@ -2,6 +2,7 @@
 # tools/check_seed.sh <ID> [seed dir]  — verify a seeded change and run our check against it.
 # Uses a scratch worktree (never touches /repo); prints a JSON summary line.
 ID="$1"; SRC="${2:-/tmp/seeds/$ID}"; TIER="${TIER:-quick}"
+cd /verif; SRC="$(realpath "$SRC")"
 WT="/tmp/seedchk-$ID-$$"
 cd /verif
 [ -f "$SRC/patch.diff" ] || { echo "{\"id\":\"$ID\",\"error\":\"no patch\"}"; exit 2; }
